@@ -67,7 +67,7 @@ def work(job):
     rng = random.Random(seed)
     out = []
     for cid, kind, arg in cases:
-        xml = NESTED % {'k': arg} if kind == 'nested' else C.render(c01lib.make_case(arg, 'lua')[0], 'promela')
+        xml = NESTED % {'k': arg} if kind == 'nested' else C.render(c01lib.make_case(arg, 'promela')[0], 'promela')
         rec = {'id': cid, 'bad': [], 'outputs': 0, 'hash': sha(xml.encode()), 'kind': kind}
         d = os.path.join(scratch, cid)
         url = 'file:///verif/charts/%s.scxml' % cid
@@ -97,7 +97,7 @@ def binary_part(chk, tbin, scratch, n):
     rng = random.Random(chk.seed + 5)
     cnt = 0
     for k in range(n):
-        xml = NESTED % {'k': k} if k % 2 == 0 else C.render(c01lib.make_case(chk.seed * 1000 + k, 'lua')[0], 'promela')
+        xml = NESTED % {'k': k} if k % 2 == 0 else C.render(c01lib.make_case(chk.seed * 1000 + k, 'promela')[0], 'promela')
         f = os.path.join(scratch, 'bin%d.scxml' % k)
         open(f, 'w').write(xml)
         for typ in ('c', 'pml') if k % 2 == 0 else ('c', 'pml', 'vhdl'):
@@ -129,7 +129,7 @@ def interp_part(chk, dbin, scratch, n):
     rng = random.Random(chk.seed + 9)
     runs = 0
     for k in range(n):
-        ch, hist = c01lib.make_case(chk.seed * 5000 + k, 'lua')
+        ch, hist = c01lib.make_case(chk.seed * 5000 + k, 'lua' if k % 2 else 'promela')
         xml = C.render(ch, 'lua' if k % 2 else 'promela')
         for eng in ('large', 'fast'):
             outs = []
